@@ -250,9 +250,27 @@ for _r in _R:
 MANIFEST = {
     "level_claimed": {
         "category": "proof",
-        "text": "",
+        "text": ("Coq theorems over an executable model of DeliverTx (ante routing -> AnteDecoratorStakingCommission -> router "
+                 "with authz / wasm / gov / ICA dispatch -> x/staking create/edit rules): C17_cap_partial — after EVERY history "
+                 "of transactions and passed proposals, for message trees of any depth/shape/sibling order, any grants and "
+                 "clocks, every validator's commission is <= 25% (structural induction over message trees + induction over "
+                 "histories); C17_no_tx_sets_rate_above_cap — the literal per-transaction statement from any pre-state. What "
+                 "the decorator and the wasm handler do is not hand-written but re-extracted from /repo on every run "
+                 "(decorator list, type-switch clauses, operands/comparison/bound, MsgExec recursion, early returns, "
+                 "MAX_COMMISSION literal, wasm handler check, extension-option routing) and the instantiated theorems "
+                 "C17_holds_for_current_tree / C17_no_tx_sets_rate_above_cap_on_current_tree are re-checked. The model is run "
+                 "against real BeginBlock/DeliverTx/EndBlock/Commit traces (accept/reject + every actor's commission after every "
+                 "tx) and the proved-sound checker Pb is evaluated on those traces. Each needed fact has a refutation "
+                 "theorem with a concrete history (pre-fix decorator, one-level decorator, early return, no wasm check)."),
         "design_ref": "DESIGN.md §5 C17",
     },
-    "level_note": "",
+    "level_note": ("PARTIAL in two named hypotheses of C17_cap_partial: ica_safe (the ICA-host allow-list admits no staking "
+                   "create/edit and no message carrier — the list installed by upgrade v1.3.0 contains authz.MsgExec and "
+                   "ibc-go's default is allow-all: refuted in the model as C17_cap_refuted_ica_allows_exec, not drivable "
+                   "without an IBC counter-party, OPEN finding) and gov_trusted (messages of a PASSED proposal are executed by "
+                   "the EndBlocker without any check; refuted without it). Trusted: Coq kernel + vm_compute; the go/ast "
+                   "extractor harness/gen/c17/antefacts (textual normal forms); the Go driver and tools/props/c17.py; the "
+                   "SDK/wasmd/ibc-go dispatch rules as modelled (authz, wasm, gov-submit pinned by the correspondence; ICA host "
+                   "and gov execution from reading the code). Funds/keys/descriptions assumed fine."),
     "technique": "Coq proof (structural induction over message trees + induction over histories) over generated ante/wasm facts + differential correspondence on DeliverTx traces",
 }
